@@ -120,17 +120,21 @@ ErrArm == "ErrSendBlocks" \notin Dev          \* error sends also select on ctx.
 
 ---------------------------------------------------------------------------
 (* splitter *)
-SplitScan ==
+\* strict = FALSE is used by trace validation: the hook that logs the outcome runs a moment after the poll, so a
+\* cancellation may be logged in between
+SplitScanCore(strict) ==
   /\ pc[Split] = "scan"
   \* every scanned line polls the context (select with default: a cancelled context is always seen); the LAST
   \* block is sent after the loop, at EOF, without a poll in between
   /\ \/ /\ ctxDone /\ next <= N /\ Set(Split, "exit") /\ UNCHANGED <<item, next>>
-     \/ /\ next <= N /\ readerFail >= next /\ (ctxDone => next = N)
+     \/ /\ next <= N /\ readerFail >= next /\ ((strict /\ ctxDone) => next = N)
         /\ Set(Split, "send") /\ item' = [item EXCEPT ![Split] = next] /\ next' = next + 1
      \/ /\ next <= N + 1 /\ readerFail = next - 1 /\ readerFail <= N
         /\ Set(Split, "errsend") /\ UNCHANGED <<item, next>>
      \/ /\ next > N /\ readerFail > N /\ Set(Split, "exit") /\ UNCHANGED <<item, next>>
   /\ UNCHANGED <<fate, readerFail, chClosed, errbuf, errClosed, ctxDone, ectxDone, userCancel, early, egErr, result, mutex, out, errsSent>>
+
+SplitScan == SplitScanCore(TRUE)
 
 \* data hand-over from p (at "send") to a worker of the next stage (at "recv"): one joint step
 Xfer(p, s) ==
@@ -181,7 +185,10 @@ RecvClosed(p) ==
 Work(p) ==
   /\ pc[p] = "work"
   /\ LET b == item[p] IN
-     IF FailStage(b) = p.s THEN
+     IF FailStage(b) = p.s /\ p.s = "sink" /\ Sink = "text" THEN
+        \* the text spreader's failure is a failing Write: it happens UNDER the mutex, which is released before the error is sent
+        /\ mutex = 0 /\ mutex' = p.i /\ Set(p, "wfail") /\ UNCHANGED <<out, errsSent>>
+     ELSE IF FailStage(b) = p.s THEN
         /\ Set(p, "errsend")
         /\ errsSent' = [errsSent EXCEPT ![p] = 1]   \* (verifyRoot's error and handleErr's exclude each other)
         /\ UNCHANGED <<mutex, out>>
@@ -200,6 +207,12 @@ WritePart(p) ==
   /\ IF pc[p] = "w1" THEN Set(p, "w2") /\ UNCHANGED <<mutex, item>>
      ELSE Set(p, "recv") /\ mutex' = 0 /\ item' = [item EXCEPT ![p] = 0]               \* ds.Unlock()
   /\ UNCHANGED <<fate, readerFail, next, chClosed, errbuf, errClosed, ctxDone, ectxDone, userCancel, early, egErr, result, errsSent>>
+
+\* ds.Unlock() after a failed write, then the error is reported
+WriteFail(p) ==
+  /\ pc[p] = "wfail"
+  /\ mutex' = 0 /\ Set(p, "errsend") /\ errsSent' = [errsSent EXCEPT ![p] = 1]
+  /\ UNCHANGED <<item, fate, readerFail, next, chClosed, errbuf, errClosed, ctxDone, ectxDone, userCancel, early, egErr, result, out>>
 
 \* both parts in one step (trace validation: the writes between Lock and Unlock are not logged one by one)
 WriteBoth(p) ==
@@ -290,7 +303,7 @@ Next ==
   \/ (Entry = "md" /\ (SplitScan \/ Xfer(Split, "gen") \/ SendCancel(Split) \/ SplitErrSend \/ SourceExit(Split)))
   \/ (Entry = "root" /\ (Xfer(Feeder, "grow") \/ SendCancel(Feeder) \/ SourceExit(Feeder)))
   \/ \E s \in StageSet : \E p \in WorkersOf(s) :
-        \/ RecvCancel(p) \/ RecvClosed(p) \/ Work(p) \/ WritePart(p) \/ ErrSend(p)
+        \/ RecvCancel(p) \/ RecvClosed(p) \/ Work(p) \/ WritePart(p) \/ WriteFail(p) \/ ErrSend(p)
         \/ (s # "sink" /\ (Xfer(p, Down(s)) \/ SendCancel(p)))
   \/ \E s \in StageSet : CloserRun(s)
   \/ \E c \in ErrChans : HandlerRecv(c) \/ HandlerClosed(c) \/ HandlerCtx(c)
